@@ -1,52 +1,137 @@
-import zlib, struct, math
-def f16(b0,b1):
-    return struct.unpack('>e', bytes((b0,b1)))[0]
+"""
+Reference codec for the published pack layout (DESIGN 2/C10), written from the docstring of MoleculeContainer.pack:
+decode(bytes) -> plain dict, encode(plain dict) -> bytes.  Independent of the .pyx sources.
+"""
+import math
+import struct
+
+
+def f16(b0, b1):
+    return struct.unpack('>e', bytes((b0, b1)))[0]
+
+
+def f16_candidates(x):
+    """the two half-precision neighbours of x (round-to-nearest and truncation towards zero) as 2-byte big-endian strings"""
+    if x == 0:
+        return {b'\x00\x00'}
+    near = struct.pack('>e', x)
+    out = {near}
+    v = struct.unpack('>e', near)[0]
+    bits = struct.unpack('>H', near)[0]
+    if abs(v) > abs(x):  # rounded away from zero: truncation is one step towards zero
+        out.add(struct.pack('>H', bits - 1))
+    return out
+
+
 def decode(data):
-    assert data[0] in (0,2), data[0]
-    ver=data[0]
-    na = data[1]<<4 | data[2]>>4
-    nct = (data[2]&0xf)<<8 | data[3]
-    p=4; atoms=[]; 
-    for i in range(na):
-        r=data[p:p+9]; p+=9
-        num=r[0]<<4|r[1]>>4; nn=r[1]&0xf
-        st=r[2]>>4
-        iso=(r[2]&0xf)<<1|r[3]>>7
-        z=r[3]&0x7f
-        x=f16(r[4],r[5]); y=f16(r[6],r[7])
-        h=r[8]>>5; ch=((r[8]>>1)&0xf)-4; rad=r[8]&1
-        atoms.append(dict(n=num,nn=nn,th=st>>2,al=st&3,iso=iso,z=z,x=x,y=y,h=None if h==7 else h,ch=ch,rad=bool(rad)))
-    tot=sum(a['nn'] for a in atoms); nb=tot//2
-    conn=[]
-    bits=int.from_bytes(data[p:p+3*nb],'big'); 
-    for i in range(tot):
-        conn.append((bits>>(12*(tot-1-i)))&0xfff)
-    p+=3*nb
-    if ver==2:
-        ob=math.ceil(nb*3/8)
-        obits=int.from_bytes(data[p:p+ob],'big')
-        orders=[((obits>>(ob*8-3*(i+1)))&7)+1 for i in range(nb)]
+    if data[0] not in (0, 2):
+        raise ValueError('not a molecule pack')
+    ver = data[0]
+    na = data[1] << 4 | data[2] >> 4
+    nct = (data[2] & 0xf) << 8 | data[3]
+    p = 4
+    atoms = []
+    for _ in range(na):
+        r = data[p:p + 9]
+        p += 9
+        st = r[2] >> 4
+        h = r[8] >> 5
+        atoms.append(dict(n=r[0] << 4 | r[1] >> 4, nn=r[1] & 0xf, th=st >> 2, al=st & 3,
+                          iso=(r[2] & 0xf) << 1 | r[3] >> 7, z=r[3] & 0x7f, x=f16(r[4], r[5]), y=f16(r[6], r[7]),
+                          xy_bytes=bytes(r[4:8]), h=None if h == 7 else h, ch=((r[8] >> 1) & 0xf) - 4, rad=bool(r[8] & 1)))
+    tot = sum(a['nn'] for a in atoms)
+    nb = tot // 2
+    bits = int.from_bytes(data[p:p + 3 * nb], 'big')
+    conn = [(bits >> (12 * (tot - 1 - i))) & 0xfff for i in range(tot)]
+    p += 3 * nb
+    if ver == 2:
+        ob = math.ceil(nb * 3 / 8)
+        obits = int.from_bytes(data[p:p + ob], 'big')
+        orders = [((obits >> (ob * 8 - 3 * (i + 1))) & 7) + 1 for i in range(nb)]
+        pad = obits & ((1 << (ob * 8 - 3 * nb)) - 1) if ob else 0
     else:
-        ob=math.ceil(nb/5)*2
-        orders=[]
-        for j in range(0,ob,2):
-            v=int.from_bytes(data[p+j:p+j+2],'big')
-            orders+= [((v>>(12-3*k))&7)+1 for k in range(5)]
-        orders=orders[:nb]
-    p+=ob
-    ct=[]
-    for i in range(nct):
-        r=data[p:p+4]; p+=4
-        ct.append((r[0]<<4|r[1]>>4,(r[1]&0xf)<<8|r[2],bool(r[3])))
-    # adjacency in order
-    adj={}; k=0; seen=set(); bonds={}
-    it=iter(conn); oi=iter(orders)
+        ob = math.ceil(nb / 5) * 2
+        orders = []
+        for j in range(0, ob, 2):
+            v = int.from_bytes(data[p + j:p + j + 2], 'big')
+            orders += [((v >> (12 - 3 * k)) & 7) + 1 for k in range(5)]
+        orders = orders[:nb]
+        pad = 0
+    p += ob
+    ct = []
+    for _ in range(nct):
+        r = data[p:p + 4]
+        p += 4
+        ct.append((r[0] << 4 | r[1] >> 4, (r[1] & 0xf) << 8 | r[2], r[3]))
+    adj, it = {}, iter(conn)
     for a in atoms:
-        adj[a['n']]=[next(it) for _ in range(a['nn'])]
+        adj[a['n']] = [next(it) for _ in range(a['nn'])]
+    bonds, seen, oi = {}, set(), iter(orders)
     for a in atoms:
-        n=a['n']
+        n = a['n']
         for m in adj[n]:
             if m not in seen:
-                bonds[(n,m)]=next(oi)
+                bonds[(n, m)] = next(oi)
         seen.add(n)
-    return dict(ver=ver,atoms=atoms,adj=adj,bonds=bonds,ct=ct,size=p)
+    return dict(ver=ver, atoms=atoms, adj=adj, bonds=bonds, ct=ct, size=p, order_padding=pad)
+
+
+def encode(desc):
+    """desc: dict(atoms=[dict(n, nbrs=[...], stereo=None|bool, iso_offset (0 = unspecified), z, xb (2 bytes), yb (2 bytes), h, ch, rad)],
+                  orders={(n, m): order}, ct=[(n, m, sign)])  -> version 2 bytes"""
+    atoms = desc['atoms']
+    out = bytearray()
+    na, nct = len(atoms), len(desc['ct'])
+    out += bytes((2, na >> 4, (na << 4 | nct >> 8) & 0xff, nct & 0xff))
+    for a in atoms:
+        nn = len(a['nbrs'])
+        if a['stereo'] is None:
+            st = 0
+        elif nn == 2:
+            st = 0b0011 if a['stereo'] else 0b0010
+        else:
+            st = 0b1100 if a['stereo'] else 0b1000
+        iso = a['iso_offset']
+        h = 7 if a['h'] is None else a['h']
+        out += bytes((a['n'] >> 4, (a['n'] << 4 | nn) & 0xff, (st << 4 | iso >> 1) & 0xff, ((iso << 7) | a['z']) & 0xff))
+        out += a['xb'] + a['yb']
+        out.append((h << 5 | (a['ch'] + 4) << 1 | int(a['rad'])) & 0xff)
+    flat = [m for a in atoms for m in a['nbrs']]
+    bits = 0
+    for m in flat:
+        bits = bits << 12 | m
+    out += bits.to_bytes(len(flat) * 12 // 8, 'big')
+    seen, orders = set(), []
+    for a in atoms:
+        for m in a['nbrs']:
+            if m not in seen:
+                orders.append(desc['orders'][(a['n'], m)] - 1)
+        seen.add(a['n'])
+    nb = len(orders)
+    ob = math.ceil(nb * 3 / 8)
+    v = 0
+    for o in orders:
+        v = v << 3 | o
+    v <<= ob * 8 - 3 * nb
+    out += v.to_bytes(ob, 'big')
+    for n, m, s in desc['ct']:
+        out += bytes((n >> 4, (n << 4 | m >> 8) & 0xff, m & 0xff, int(s)))
+    return bytes(out)
+
+
+def encode_v0(desc):
+    """version 0 layout: identical except the order block (5 orders per 16 bit word, top bit zero)"""
+    v2 = encode(desc)
+    d = decode(v2)
+    nb = len(d['bonds'])
+    head = 4 + 9 * len(d['atoms']) + 3 * nb
+    ob2 = math.ceil(nb * 3 / 8)
+    orders = [o - 1 for o in d['bonds'].values()]
+    block = bytearray()
+    for i in range(0, nb, 5):
+        chunk = orders[i:i + 5] + [0] * (5 - len(orders[i:i + 5]))
+        w = 0
+        for o in chunk:
+            w = w << 3 | o
+        block += w.to_bytes(2, 'big')
+    return bytes([0]) + v2[1:head] + bytes(block) + v2[head + ob2:]
